@@ -164,10 +164,44 @@ def guards(mod, stmt, sym=None, within=None):
   `within`: keep only tests located inside that node (e.g. a loop).
   """
   out = []
-  for t, pol in flow.guards(mod.parent, stmt):
+  raw = list(flow.guards(mod.parent, stmt)) + _elif_exits(mod, stmt)
+  seen = set()
+  for t, pol in raw:
+    if (id(t), pol) in seen:
+      continue
+    seen.add((id(t), pol))
     if within is not None and not _inside(mod, t, within):
       continue
     out.append((sym.resolve(t, t) if sym else t, pol))
+  return out
+
+
+def _elif_exits(mod, stmt):
+  """Negated tests of *every* terminating arm of an earlier if/elif chain.
+
+  sa.flow.guards negates only the first test of `if A: return .. elif B:
+  continue`; falling out of such a chain also implies `not B` as long as all
+  arms before B terminate.
+  """
+  out = []
+  node = stmt
+  while node in mod.parent:
+    par = mod.parent[node]
+    for fld in ("body", "orelse", "finalbody"):
+      blk = getattr(par, fld, None)
+      if isinstance(blk, list) and node in blk:
+        for prev in blk[:blk.index(node)]:
+          arm = prev
+          while isinstance(arm, ast.If) and flow.terminates(arm.body):
+            out.append((arm.test, False))
+            if len(arm.orelse) == 1 and isinstance(arm.orelse[0], ast.If):
+              arm = arm.orelse[0]
+            else:
+              break
+        break
+    if isinstance(par, (ast.FunctionDef, ast.AsyncFunctionDef, ast.Lambda)):
+      break
+    node = par
   return out
 
 
